@@ -874,7 +874,9 @@ fn check_not_under_pool_lock(what: &str) {
     if held {
         let _ = try_w(|w| {
             if !w.in_retain && w.cur_get(w.seq_actor.unwrap_or(usize::MAX)).is_some() {
-                w.violate(&["C02"], "manager-called-under-pool-lock", format!("{} was invoked by get() while the pool's slots lock was held: a manager or hook that calls back into the pool would deadlock", what));
+                // C02: re-entry deadlocks; C03: a panic of that call poisons the
+                // lock, after which the pool is not "as if the call had never happened"
+                w.violate(&["C02", "C03"], "manager-called-under-pool-lock", format!("{} was invoked by get() while the pool's slots lock was held: a manager or hook that calls back into the pool would deadlock, one that panics poisons the pool", what));
             }
         });
     }
@@ -939,9 +941,30 @@ fn next_errno() -> u32 {
     })
 }
 
-async fn env_async(site: Site, obj: Option<usize>, m: Option<Metrics>) -> Result<(), u32> {
+/// The synchronous part of a manager / async-hook call: the call is entered,
+/// its outcome decided, and an injected panic raised right here (a manager may
+/// do - and fail in - synchronous work before it returns its future).
+fn env_begin(site: Site, obj: Option<usize>, m: Option<Metrics>) -> (EnvGuard, Out) {
     let g = EnvGuard::enter(site, obj, m);
     let out = pick(site);
+    if out == Out::Panic {
+        let who = g.who;
+        w(|w| {
+            if let Some(gi) = w.cur_get(who) {
+                w.gets[gi].injected_panic = true;
+            }
+        });
+        panic!("{}", INJECTED);
+    }
+    (g, out)
+}
+
+async fn env_async(site: Site, obj: Option<usize>, m: Option<Metrics>) -> Result<(), u32> {
+    let pre = env_begin(site, obj, m);
+    env_rest(site, pre).await
+}
+
+async fn env_rest(site: Site, (g, out): (EnvGuard, Out)) -> Result<(), u32> {
     let auto = w(|w| w.cfg.auto_gates);
     let r = match out {
         Out::Ok => Ok(()),
@@ -972,15 +995,7 @@ async fn env_async(site: Site, obj: Option<usize>, m: Option<Metrics>) -> Result
             sched::gate("never", false).await;
             Ok(())
         }
-        Out::Panic => {
-            let who = g.who;
-            w(|w| {
-                if let Some(gi) = w.cur_get(who) {
-                    w.gets[gi].injected_panic = true;
-                }
-            });
-            panic!("{}", INJECTED);
-        }
+        Out::Panic => unreachable!("raised in the synchronous part"),
     };
     g.finish(r);
     r
@@ -1010,15 +1025,19 @@ impl Manager for Mgr {
     type Type = Obj;
     type Error = MErr;
 
-    async fn create(&self) -> Result<Obj, MErr> {
-        env_async(Site::Create, None, None).await.map_err(MErr)?;
-        Ok(Obj::new())
+    // create() and recycle() have a synchronous part (the call is entered and
+    // may panic there) and return the rest as a future
+    fn create(&self) -> impl std::future::Future<Output = Result<Obj, MErr>> + Send {
+        let pre = env_begin(Site::Create, None, None);
+        async move {
+            env_rest(Site::Create, pre).await.map_err(MErr)?;
+            Ok(Obj::new())
+        }
     }
 
-    async fn recycle(&self, obj: &mut Obj, metrics: &Metrics) -> RecycleResult<MErr> {
-        env_async(Site::Recycle, Some(obj.id), Some(*metrics))
-            .await
-            .map_err(|n| RecycleError::Backend(MErr(n)))
+    fn recycle(&self, obj: &mut Obj, metrics: &Metrics) -> impl std::future::Future<Output = RecycleResult<MErr>> + Send {
+        let pre = env_begin(Site::Recycle, Some(obj.id), Some(*metrics));
+        async move { env_rest(Site::Recycle, pre).await.map_err(|n| RecycleError::Backend(MErr(n))) }
     }
 
     fn detach(&self, obj: &mut Obj) {
